@@ -30,7 +30,7 @@ CLAIMED = {
              "from ast_parser.py / sympy_interpreter.py are the standard ones (caret and BitXor are power), built-in names are "
              "looked up in lower case, unknown names stay uninterpreted with their arguments. The real parser is compared with "
              "the specification at rational points on EVERY pair and EVERY triple of operators, reserved words and ports next to "
-             "every operator, mixed-case built-ins and random strings. Partial: CPython's ast.parse and the re module are trusted.",
+             "every operator, mixed-case built-ins and random strings. Partial: CPython's ast.parse and the re module are trusted. New: the round trip of the specification grammar is now proved for EVERY tree (parse_tokens (ptoks e) = Some e, by induction, with an explicit fuel bound linear in the number of tokens); the exhaustive 49537-tree check is kept as a test.",
         design_ref="DESIGN.md section 5 C11",
         note="Trusted: Coq kernel; translator (tables, fail-closed); CPython ast/re; sympy arithmetic.",
         technique="Coq specification parser with exhaustive bounded round-trip theorem + generated-table theorems + exhaustive operator pair/triple differential stream",
